@@ -233,6 +233,15 @@ def main():
     if old != new:
         open(out, "w").write(new)
     print("extracted %d definitions" % len(defs))
+    # extractors owned by other suites: tools/extract.d/*.py REPO <lean model dir>
+    import glob
+    import subprocess
+    for ex in sorted(glob.glob(os.path.join(os.path.dirname(os.path.abspath(__file__)), "extract.d", "*.py"))):
+        r = subprocess.run([sys.executable, ex, repo, os.path.dirname(os.path.abspath(out))], stdout=subprocess.PIPE,
+                           stderr=subprocess.STDOUT, text=True)
+        sys.stdout.write(r.stdout)
+        if r.returncode != 0:
+            sys.exit(1)
 
 
 if __name__ == "__main__":
